@@ -167,9 +167,19 @@ impl ResponseData for Error {
 
         if let Some(ext) = self.get_extended() {
             formatter.push_byte(b'"')?;
-            formatter.push_str(self.get_message())?;
+            for (i, part) in self.get_message().split(|x| *x == b'"').enumerate() {
+                if i > 0 {
+                    formatter.push_str(br#""""#)?;
+                }
+                formatter.push_str(part)?;
+            }
             formatter.push_byte(b';')?;
-            formatter.push_str(ext)?;
+            for (i, part) in ext.split(|x| *x == b'"').enumerate() {
+                if i > 0 {
+                    formatter.push_str(br#""""#)?;
+                }
+                formatter.push_str(part)?;
+            }
             formatter.push_byte(b'"')
         } else {
             self.get_message().format_response_data(formatter)
